@@ -193,7 +193,7 @@ def check_reset(ctx, chk, prefix):
     p = envfacts.prop_term(ctx, "nasim.scenarios.scenario", "Scenario", "address_space")
     txt = [p.show(t) for _, t in p.returns]
     chk.ob(f"{prefix}.address-space", "Scenario.address_space = list(hosts.keys())",
-           txt == ["list(self.scenario_dict['host'].keys())"], str(txt),
+           txt == ["list(self.scenario_dict['host'])"], str(txt),
            "nasim/scenarios/scenario.py")
     return len(state_cells)
 
